@@ -3,12 +3,13 @@ from ..rules_shape import floor_a, const_agree, month_table
 from ..e5 import run_e5
 from ..rules_contract import run_contracts
 
-from ..rules_pair import ym_pair
+from ..rules_pair import ym_pair, year_fact
 
 
 def run(ctx, rep):
     prog = ctx.prog("Q")
     ym_pair(rep, prog, floor=15)
+    year_fact(rep, prog)
     rep.notes.append("Does not decide that the Neri-Schneider arithmetic computes Gregorian values.")
     floor_a(ctx, rep)
     const_agree(rep, prog)
